@@ -80,7 +80,7 @@ class P(b1.Plugin):
 
 def main(tier):
     t0 = time.time()
-    proof = common.proof_obligations("C05", modules=["EduceModel.Props.C05", "EduceModel.Props.E2E"])
+    proof = common.proof_obligations("C05", modules=["EduceModel.Props.C05", "EduceModel.Props.E2E", "EduceModel.Props.Profile"])
     n_defs, cap_vals, cap_pairs = (200, 15, 120) if tier == "quick" else (2000, 40, 500)
     tie = b1.run_b1("C05", P(cap_pairs), n_defs, cap_vals, common.seed())
     return common.finish("C05", tier, t0, proof, tie)
